@@ -90,4 +90,6 @@ def build_world(modules=None):
     w.specfuncs.update(SPECFUNCS)
     w.axioms.extend(AXIOMS)
     w.property_funcs = dict(PROPERTY_FUNCS)
+    from pyvc import regex
+    regex.install(w)
     return w
